@@ -509,6 +509,12 @@ def check_message(col, msg, root, target, desc, key, width):
         positions.append(nxt)
     pos = positions[0]          # position of the failing spec
     col.count('ancestors_located', len(anc))
+    # a truncated line can stand for several specs of this evaluation (long specs sharing a prefix): when the line taken for the
+    # failing spec is ambiguous in that way, the two ordering rules below cannot tell its true place and are not applied
+    failing_text = flow_specs[pos][1].text
+    ambiguous = '...' in failing_text and len({id(f.spec) for f in frames if matches(failing_text, f.spec)}) > 1
+    if ambiguous:
+        col.count('messages_with_an_ambiguously_truncated_failing_spec')
     # (3') what the followed flow lists BEFORE the failing spec, apart from its ancestors, are completed steps that an ancestor was
     # chained to: earlier steps of a chain; for a Switch the case key that selected the value; for a Match-mode dict the evaluation
     # of the item's KEY against a key pattern.  A completed evaluation of something else (the value of ANOTHER item, say) is not on
@@ -523,7 +529,7 @@ def check_message(col, msg, root, target, desc, key, width):
             before = [x for x in before if any(x.spec is k for k, _v in a_.spec.cases)]
         for x in before:
             legit.extend(all_frames(x))
-    for j in range(pos):
+    for j in range(pos if not ambiguous else 0):
         ln = flow_specs[j][1]
         col.count('flow_lines_before_the_failing_spec')
         if not any(matches(ln.text, f.spec) for f in legit):
@@ -532,7 +538,7 @@ def check_message(col, msg, root, target, desc, key, width):
                                  'completed step one of them was chained to\n%s' % (desc, short(fmt_full(failing.spec), 100), ln.text, msg), wit)
     # nothing unrelated after the failing spec: later followed Spec lines belong to frames nested in the failing frame
     inside = all_frames(failing)
-    for j in range(pos + 1, len(flow_specs)):
+    for j in range(pos + 1, len(flow_specs) if not ambiguous else 0):
         ln = flow_specs[j][1]
         if not any(matches(ln.text, f.spec) for f in inside[1:]):
             return col.violation('C05/spec-after-the-failing-spec-not-nested-in-it',
@@ -708,7 +714,7 @@ def one_case(col, rng, tracer, width):
         msg = rendered.value
         ok = check_message(col, msg, root, target, desc, None, width)
         if ok is True and rng.random() < 0.15:
-            w2 = width + rng.choice([-17, -6, 9, 31])
+            w2 = max(50, width + rng.choice([-17, -6, 9, 31]))      # (the library clamps its own width to >= 50)
             msg2 = rerender(col, got.exc, msg, w2)
             if msg2 is not None:
                 check_message(col, msg2, root, target, '%s rendered with width=%d (imported with %d)' % (desc, w2, width), None, w2)
@@ -798,7 +804,7 @@ def exact_fit_boundaries(col, tracer, width):
                 return
             desc = '%s rendered with width=%d (imported with %d)' % (desc, w, width)
         check_message(col, msg, tracer.roots()[-1], target, desc, ('exact-fit', desc), w)
-    for w in (width, width - 17, width + 31):
+    for w in sorted({width, max(50, width - 17), width + 31}):
         for n in range(w - 24, w + 3):
             s_ = 'x' * n
             run_one('root-target-str:%d' % (n - w), s_, 'nope', w)
